@@ -137,6 +137,12 @@ func runC15(c *core.Ctx) {
 				p := append([]byte{}, p...)
 				c.Guard("codecs."+name+".Unmarshal", func() { _, _ = long.Unmarshal(p) })
 			}
+			if garbage > 0 && t.Chance(1, 3) {
+				// garbage may also sit directly in front of the new frame
+				gb := garbageFor(t, a)
+				c.Guard("codecs."+name+".Unmarshal", func() { _, _ = long.Unmarshal(gb) })
+				c.Probe("garbage-between-frames")
+			}
 			if lost > 0 {
 				c.Fingerprint(uint64(kind), uint64(n), m, b2u(garbage > 0))
 			}
